@@ -290,6 +290,35 @@ def r8_model_order(ctx, rule):
                  'the restored index denotes another n-gram: strings of the interrupted level are repeated and others skipped')
 
 
+def r9_session_file_names(ctx, rule):
+    """The companion files of a session (<name>.sav -> <name>.omn) are named by an injective function of the session name.
+    str.rstrip/lstrip/strip take a SET of characters: save_file.rstrip('.sav') also eats the end of names such as 'canvas',
+    'nights', 'run_as', so two sessions share one .omn file and a restore continues the other session's level (seed C15-g)."""
+    n = 0
+    bad = False
+    for q, fn in ctx.repo.all_funcs():
+        rel = q.partition('::')[0]
+        if not (rel.startswith('lib_guesser/') or rel == 'pcfg_guesser.py'):
+            continue
+        for c in calls_in(fn):
+            if isinstance(c.func, ast.Attribute) and c.func.attr in ('rstrip', 'lstrip', 'strip') and len(c.args) == 1 \
+                    and isinstance(const(c.args[0]), str):
+                n += 1
+                lit = const(c.args[0])
+                if len(lit) >= 3 and lit.startswith('.') and lit[1:].isalnum():
+                    bad = True
+                    ctx.bad(rule, q, '%s.%s(%r)' % (U(c.func.value)[:40], c.func.attr, lit),
+                            '%s() removes any run of the characters %s, not the suffix %r: different session names collapse to the same '
+                            'companion file name' % (c.func.attr, sorted(set(lit)), lit), None, c)
+    names = [U(x) for q, fn in ctx.repo.all_funcs() if q.startswith('lib_guesser/pcfg_grammar.py') for x in ast.walk(fn)
+             if isinstance(x, ast.BinOp) and isinstance(x.op, ast.Add) and const(x.right) == '.omn']
+    if not names:
+        ctx.unk(rule, 'lib_guesser/pcfg_grammar.py', "construction of the '.omn' file name not found")
+    elif not bad:
+        ctx.ok(rule, 'lib_guesser/pcfg_grammar.py', "the .omn name is %s; no extension is removed with a character-set strip" % sorted(set(names)),
+               {'strip_calls_with_literal': n})
+
+
 def _model_immutable(ctx, rule):
     from . import c10
     return c10.r6_model_immutable(ctx, rule)
@@ -298,7 +327,7 @@ def _model_immutable(ctx, rule):
 def rules(tier):
     return [('C15.R1', r1_one_shot_key), ('C15.R2', r2_no_generated_unemitted), ('C15.R3', r3_pickle_layout),
             ('C15.R4', r4_omen_exit_writers), ('C15.R5', lambda c, r: c08.r5_sav_keys(c, r, sections=('guessing_info',), floor=3)),
-            ('C15.R6', r6_omen_call_sites), ('C15.R7', _model_immutable), ('C15.R8', r8_model_order)]
+            ('C15.R6', r6_omen_call_sites), ('C15.R7', _model_immutable), ('C15.R8', r8_model_order), ('C15.R9', r9_session_file_names)]
 
 
 META = {
